@@ -9,9 +9,13 @@ Proved (DESIGN §6 C17):
 * ✔ `decide_yes_iff`: `Yes` ⇔ invariant in the table ∧ a pseudo-toroidal cover exists ∧
   `simplify` succeeds ∧ the canonical key is the cubic tiling's — a `Yes` always carries the
   certificate data and depends on nothing else;
-* ✔ `decide_total` + `decide_reasons`: every combination of facts gets exactly one verdict; each
-  `No` / `Maybe` reason is characterised by the branch that produces it, and its message is one
-  of the documented ones (the lists of the Spec);
+* ✔ `decide_table` + `decide_reasons`: `decideVerdict` is the decision table `cascadeTable` (eleven
+  rows with fully written guards, complete and pairwise exclusive on all 2¹⁰ fact combinations);
+  each `No` / `Maybe` reason is characterised by the branch that produces it, and its message is
+  one of the documented ones (the lists of the Spec).  These (with `decide_yes_iff`,
+  `decide_yes_independent`, `decide_needs_cover`, `prefix_consistent`) are TRUTH-TABLE PROPERTIES of
+  the hand-written 10-Boolean function `decideVerdict`; its tie to euclidicity.rs is the
+  differential run on the branches the universe reaches;
 * ✔ `decide_needs_cover`: without a pseudo-toroidal cover the verdict is `No`;
 * ✔ `invariants_table_wellformed`: what holds of the 235 tokens the parser keeps;
 * ✔ `invariants_table_reachable`: every entry's invariant fields are a list `abelian_invariants`
@@ -48,21 +52,65 @@ theorem decide_yes_independent (f g : Facts)
     decideVerdict f = .yes ↔ decideVerdict g = .yes := by
   rw [decide_yes_iff, decide_yes_iff, h1, h2, h3, h4]
 
-/-- **decide_total.**  Every combination of facts gets exactly one verdict (the cascade has a
-    final `else`; the only panic sources are inside the callee functions that compute the
-    facts), and its rendered message is `yes`, a documented `No` reason or a documented `Maybe`
-    reason of the Spec. -/
-theorem decide_total (f : Facts) :
-    (∃! v, decideVerdict f = v) ∧
-    (match decideVerdict f with
-     | .yes => True
-     | .no r => r.text ∈ SpecC17.noReasons
-     | .maybe r => r.text ∈ SpecC17.maybeReasons) := by
-  refine ⟨⟨decideVerdict f, rfl, fun _ h => h.symm⟩, ?_⟩
-  cases decideVerdict f with
-  | yes => trivial
-  | no r => cases r <;> decide
-  | maybe r => cases r <;> decide
+/-- the cascade of `is_euclidean` written INDEPENDENTLY of `decideVerdict` as a decision table:
+    one row per exit of the code, each guard written out in full (the conjunction of everything
+    that must have happened on the way to that exit), in the order of the source -/
+def cascadeTable : List ((Facts → Bool) × Verdict) :=
+  [ (fun f => !f.invInTable, .no .invariants),
+    (fun f => f.invInTable && !f.coverFound, .no .noCover),
+    (fun f => f.invInTable && f.coverFound && !f.simplifyOk, .no .lensSpace),
+    (fun f => f.invInTable && f.coverFound && f.simplifyOk && f.keyIsCubic, .yes),
+    (fun f => f.invInTable && f.coverFound && f.simplifyOk && !f.keyIsCubic && !f.connected &&
+        f.badComponents, .no .connectedSum),
+    (fun f => f.invInTable && f.coverFound && f.simplifyOk && !f.keyIsCubic && !f.connected &&
+        !f.badComponents, .maybe .connectedSum),
+    (fun f => f.invInTable && f.coverFound && f.simplifyOk && !f.keyIsCubic && f.connected &&
+        !f.invarsZ3, .no .handle),
+    (fun f => f.invInTable && f.coverFound && f.simplifyOk && !f.keyIsCubic && f.connected &&
+        f.invarsZ3 && f.isFree, .no .freeGroup),
+    (fun f => f.invInTable && f.coverFound && f.simplifyOk && !f.keyIsCubic && f.connected &&
+        f.invarsZ3 && !f.isFree && f.badCount, .no .subgroupCount),
+    (fun f => f.invInTable && f.coverFound && f.simplifyOk && !f.keyIsCubic && f.connected &&
+        f.invarsZ3 && !f.isFree && !f.badCount && f.badSubInv, .no .subgroups),
+    (fun f => f.invInTable && f.coverFound && f.simplifyOk && !f.keyIsCubic && f.connected &&
+        f.invarsZ3 && !f.isFree && !f.badCount && !f.badSubInv, .maybe .noDecision) ]
+
+/-- the table checked on one combination of facts: exactly one guard holds, and its row carries
+    the verdict of `decideVerdict` -/
+def tableRowOK (f : Facts) : Bool :=
+  (cascadeTable.filter (fun r => r.1 f)).length == 1 &&
+  cascadeTable.all (fun r => !r.1 f || decideVerdict f == r.2)
+
+set_option maxHeartbeats 1600000 in
+/-- **decide_table** (replaces the former `decide_total`, which only said that a function has a
+    value).  The hand-written cascade `decideVerdict` IS the decision table `cascadeTable`: for
+    every one of the 2¹⁰ combinations of the ten facts EXACTLY ONE of the eleven rows applies
+    (the guards are complete and pairwise exclusive) and `decideVerdict` returns the verdict of that
+    row; the eleven verdicts are pairwise different (one `yes`, eight `no`, two `maybe`), and the
+    message of every verdict is a documented reason of the Spec.  NB: this is a truth-table
+    property of the 10-Boolean function `decideVerdict`; that the function is the cascade of
+    euclidicity.rs is tied to the code only by the differential runs (conf/C17.json). -/
+theorem decide_table :
+    (∀ f : Facts, (cascadeTable.filter (fun r => r.1 f)).length = 1 ∧
+      ∀ r ∈ cascadeTable, r.1 f = true → decideVerdict f = r.2) ∧
+    (cascadeTable.map (·.2)).Nodup ∧ cascadeTable.length = 11 ∧
+    cascadeTable.all (fun r => match r.2 with
+      | .yes => true
+      | .no x => SpecC17.noReasons.contains x.text
+      | .maybe x => SpecC17.maybeReasons.contains x.text) = true := by
+  have key : ∀ f : Facts, tableRowOK f = true := by
+    rintro ⟨a, b, c, d, e, g, h, i, j, k⟩
+    cases a <;> cases b <;> cases c <;> cases d <;> cases e <;> cases g <;> cases h <;> cases i <;>
+      cases j <;> cases k <;> rfl
+  refine ⟨?_, by decide, rfl, by decide⟩
+  intro f
+  have h := key f
+  unfold tableRowOK at h
+  rw [Bool.and_eq_true, beq_iff_eq, List.all_eq_true] at h
+  refine ⟨h.1, fun r hr hg => ?_⟩
+  have := h.2 r hr
+  rw [hg] at this
+  simpa using this
 
 /-- the reasons are pairwise different strings, so the class and reason transmitted by the
     harness identify the branch -/
@@ -339,7 +387,7 @@ theorem yes_certificate_sound (s : DS.DSymData) (f : Facts) (hf : FactsOf s f)
     `orbifold_invariant` returns: the model of the part of `is_euclidean` before `simplify`
     returns — no panic and no exhausted fuel in `pseudo_toroidal_cover`
     (C15 `pseudo_toroidal_cover_total`) —, there ARE facts agreeing with the models (`FactsOf`),
-    and on all such facts the cascade (`decide_total`: exactly one verdict, a documented message)
+    and on all such facts the cascade (`decide_table`: exactly one row applies, a documented message)
     announces what the model announces.  What remains outside: totality of `orbifold_invariant`
     itself (hypothesis here; Spec clause `returns-a-verdict-without-panic`) and the callee
     functions behind `simplify` (no model). -/
